@@ -110,11 +110,269 @@ func TestC03(t *testing.T) {
 	}
 	report(t, r)
 	testC03Having(t)
+	testC03AggregatesOnly(t)
+	testC03PathColumns(t)
+	testC03NamedNumbers(t)
 	testC03MixedKeys(t)
 }
 
 // HAVING sees the finished group row: a condition on a grouping column, alone or with an aggregate, keeps exactly the
 // groups whose key satisfies it.
+// A select list of aggregates only, under GROUP BY, still yields one row per group (in first-appearance order).
+func testC03AggregatesOnly(t *testing.T) {
+	r := &result{Property: "C03", Name: "aggregates-only-select-list-under-group-by", Bound: "all tables of 0..4 rows over g in {x, y, NULL} and v in {1, 2}; SELECT COUNT(*), SUM(v) ... GROUP BY g, with and without HAVING"}
+	gs := []any{"x", "y", nil}
+	var tables [][]any
+	var gen func(prefix []any, k int)
+	gen = func(prefix []any, k int) {
+		tables = append(tables, append([]any{}, prefix...))
+		if k == 0 {
+			return
+		}
+		for _, g := range gs {
+			for _, v := range []float64{1, 2} {
+				gen(append(prefix, map[string]any{"g": g, "v": v}), k-1)
+			}
+		}
+	}
+	gen(nil, 4)
+	for _, tbl := range tables {
+		for _, having := range []string{"", " HAVING SUM(v) > 2"} {
+			r.Cases++
+			q, err := genql.New(map[string]any{"t": tbl}, "SELECT COUNT(*) AS c, SUM(v) AS s FROM t GROUP BY g"+having)
+			if err != nil {
+				r.violate("New: %v", err)
+				continue
+			}
+			rs, err := q.Exec()
+			if err != nil {
+				r.violate("table %v%s: %v", tbl, having, err)
+				continue
+			}
+			var order []any
+			cnt := map[any]int{}
+			sum := map[any]float64{}
+			for _, x := range tbl {
+				g := x.(map[string]any)["g"]
+				if _, seen := cnt[g]; !seen {
+					order = append(order, g)
+				}
+				cnt[g]++
+				sum[g] += x.(map[string]any)["v"].(float64)
+			}
+			var want []string
+			for _, g := range order {
+				if having == "" || sum[g] > 2 {
+					want = append(want, fmt.Sprintf("%d/%v", cnt[g], sum[g]))
+				}
+			}
+			var got []string
+			for _, o := range rs {
+				if m, ok := o.(map[string]any); ok {
+					got = append(got, fmt.Sprintf("%v/%v", m["c"], m["s"]))
+				} else {
+					got = append(got, fmt.Sprintf("%v", o))
+				}
+			}
+			if fmt.Sprint(got) != fmt.Sprint(want) {
+				r.violate("table %v%s: rows (count/sum) %v, reference %v", tbl, having, got, want)
+			}
+		}
+	}
+	report(t, r)
+}
+
+// Grouping columns written as paths: a table alias (a.g), a nested key (o.k), two paths that share a step, a path next to
+// a plain column. The key columns of every group read back in the select list and in HAVING.
+func testC03PathColumns(t *testing.T) {
+	r := &result{Property: "C03", Name: "grouping-columns-written-as-paths", Bound: "all tables of 0..3 rows over g in {x, y}, o.k in {p, q, missing}, o.m.z in {1, 2}; 6 queries (alias-qualified key, nested key, two nested keys, nested and plain key, HAVING on a nested key, star)"}
+	type row = map[string]any
+	var shapes []row
+	for _, g := range []any{"x", "y"} {
+		for _, k := range []any{"p", "q", nil} {
+			for _, z := range []any{1.0, 2.0} {
+				o := row{"m": row{"z": z}}
+				if k != nil {
+					o["k"] = k
+				}
+				shapes = append(shapes, row{"g": g, "o": o, "v": 1.0})
+			}
+		}
+	}
+	var tables [][]any
+	var gen func(prefix []any, k int)
+	gen = func(prefix []any, k int) {
+		tables = append(tables, append([]any{}, prefix...))
+		if k == 0 {
+			return
+		}
+		for _, sh := range shapes {
+			gen(append(prefix, sh), k-1)
+		}
+	}
+	gen(nil, 2)
+	if tier() == "thorough" {
+		tables = nil
+		gen(nil, 3)
+	}
+	get := func(x any, path ...string) any {
+		for _, p := range path {
+			m, ok := x.(row)
+			if !ok {
+				return nil
+			}
+			x = m[p]
+		}
+		return x
+	}
+	type q struct {
+		sql  string
+		keys [][]string
+		keep func(ks []any) bool
+	}
+	qs := []q{
+		{"SELECT a.g AS k0, COUNT(*) AS c FROM t a GROUP BY a.g", [][]string{{"g"}}, nil},
+		{"SELECT `o.k` AS k0, COUNT(*) AS c FROM t GROUP BY `o.k`", [][]string{{"o", "k"}}, nil},
+		{"SELECT `o.k` AS k0, `o.m.z` AS k1, COUNT(*) AS c FROM t GROUP BY `o.k`, `o.m.z`", [][]string{{"o", "k"}, {"o", "m", "z"}}, nil},
+		{"SELECT `o.m.z` AS k0, g AS k1, COUNT(*) AS c FROM t GROUP BY `o.m.z`, g", [][]string{{"o", "m", "z"}, {"g"}}, nil},
+		{"SELECT `o.k` AS k0, COUNT(*) AS c FROM t GROUP BY `o.k` HAVING `o.k` = 'p'", [][]string{{"o", "k"}}, func(ks []any) bool { return ks[0] == "p" }},
+		{"SELECT `o.m.z` AS k0, COUNT(*) AS c FROM t GROUP BY `o.m.z` HAVING `o.m.z` > 1 AND COUNT(*) > 0", [][]string{{"o", "m", "z"}}, func(ks []any) bool { return ks[0] == 2.0 }},
+	}
+	for _, tbl := range tables {
+		for _, qq := range qs {
+			r.Cases++
+			query, err := genql.New(map[string]any{"t": tbl}, qq.sql)
+			if err != nil {
+				r.violate("New(%s): %v", qq.sql, err)
+				continue
+			}
+			rs, err := query.Exec()
+			if err != nil {
+				r.violate("%s on %v: %v", qq.sql, tbl, err)
+				continue
+			}
+			var order []string
+			counts := map[string]int{}
+			keep := map[string]bool{}
+			for _, x := range tbl {
+				var ks []any
+				for _, path := range qq.keys {
+					ks = append(ks, get(x, path...))
+				}
+				id := fmt.Sprintf("%#v", ks)
+				if _, seen := counts[id]; !seen {
+					order = append(order, id)
+					keep[id] = qq.keep == nil || qq.keep(ks)
+				}
+				counts[id]++
+			}
+			var want []string
+			for _, id := range order {
+				if keep[id] {
+					want = append(want, fmt.Sprintf("%s x%d", id, counts[id]))
+				}
+			}
+			var got []string
+			for _, o := range rs {
+				m, _ := o.(map[string]any)
+				var ks []any
+				for i := range qq.keys {
+					ks = append(ks, m[fmt.Sprintf("k%d", i)])
+				}
+				got = append(got, fmt.Sprintf("%#v x%v", ks, m["c"]))
+			}
+			if fmt.Sprint(got) != fmt.Sprint(want) {
+				r.violate("%s on %v: groups %v, reference %v", qq.sql, tbl, got, want)
+			}
+		}
+	}
+	report(t, r)
+}
+
+type c03Cents int64
+
+// Aggregates over members that are numbers of a named type (json.Number from a decoder with UseNumber, a named integer
+// type): they are read through their printed form, like every other number.
+func testC03NamedNumbers(t *testing.T) {
+	r := &result{Property: "C03", Name: "aggregates-over-named-number-types", Bound: "all tables of 1..3 rows over v in {json.Number 2.5, json.Number 4, c03Cents 150, 1.5}, two groups; SUM, MIN, MAX, AVG per group and over the whole table"}
+	vals := []any{json.Number("2.5"), json.Number("4"), c03Cents(150), 1.5}
+	num := func(v any) float64 {
+		f := 0.0
+		fmt.Sscan(fmt.Sprint(v), &f)
+		return f
+	}
+	var tables [][]any
+	var gen func(prefix []any, k int)
+	gen = func(prefix []any, k int) {
+		if len(prefix) > 0 {
+			tables = append(tables, append([]any{}, prefix...))
+		}
+		if k == 0 {
+			return
+		}
+		for _, v := range vals {
+			for _, g := range []string{"x", "y"} {
+				gen(append(prefix, map[string]any{"g": g, "v": v}), k-1)
+			}
+		}
+	}
+	gen(nil, 3)
+	for _, tbl := range tables {
+		for _, grouped := range []bool{true, false} {
+			r.Cases++
+			sql := "SELECT SUM(v) AS s, MIN(v) AS mn, MAX(v) AS mx, AVG(v) AS av FROM t"
+			if grouped {
+				sql = "SELECT g, SUM(v) AS s, MIN(v) AS mn, MAX(v) AS mx, AVG(v) AS av FROM t GROUP BY g"
+			}
+			q, err := genql.New(map[string]any{"t": tbl}, sql)
+			if err != nil {
+				r.violate("New: %v", err)
+				continue
+			}
+			rs, err := q.Exec()
+			if err != nil {
+				r.violate("%s on %v: %v", sql, tbl, err)
+				continue
+			}
+			var order []string
+			members := map[string][]float64{}
+			for _, x := range tbl {
+				g := ""
+				if grouped {
+					g = x.(map[string]any)["g"].(string)
+				}
+				if _, seen := members[g]; !seen {
+					order = append(order, g)
+				}
+				members[g] = append(members[g], num(x.(map[string]any)["v"]))
+			}
+			var want []string
+			for _, g := range order {
+				sum, mn, mx := 0.0, members[g][0], members[g][0]
+				for _, f := range members[g] {
+					sum += f
+					if f < mn {
+						mn = f
+					}
+					if f > mx {
+						mx = f
+					}
+				}
+				want = append(want, fmt.Sprintf("%v %v %v %v", sum, mn, mx, sum/float64(len(members[g]))))
+			}
+			var got []string
+			for _, o := range rs {
+				m, _ := o.(map[string]any)
+				got = append(got, fmt.Sprintf("%v %v %v %v", m["s"], m["mn"], m["mx"], m["av"]))
+			}
+			if fmt.Sprint(got) != fmt.Sprint(want) {
+				r.violate("%s on %v: (sum min max avg) %v, reference %v", sql, tbl, got, want)
+			}
+		}
+	}
+	report(t, r)
+}
+
 func testC03Having(t *testing.T) {
 	r := &result{Property: "C03", Name: "having-sees-the-grouping-columns", Bound: "5 tables x 6 HAVING conditions on the grouping column (=, <>, IS NULL, IS NOT NULL, with an aggregate, inside a function call)"}
 	tables := [][]any{
